@@ -271,6 +271,9 @@ type Profile struct {
 	// crossing calls (one realm finalization each) that move persisted objects
 	// between holders, drop and re-create them.
 	MoveBoost bool
+	// FanBoost deploys four clone realms in the first block and makes 30% of
+	// the transactions fan-out messages that change several of them equally.
+	FanBoost bool
 }
 
 // Gen produces a random history of nBlocks blocks.
@@ -332,6 +335,14 @@ func GenP(r *rand.Rand, seed uint64, nBlocks, maxTxs int, prof Profile) *History
 	for b := 0; b < nBlocks; b++ {
 		var blk []TxSpec
 		ntx := r.IntN(maxTxs + 1)
+		if prof.FanBoost && b == 0 {
+			for k := 0; k < 4; k++ {
+				p, body := smallRealm(nextPkg, r)
+				deployed = append(deployed, nextPkg)
+				nextPkg++
+				blk = append(blk, TxSpec{Signer: Users[k%len(Users)], Gas: 200_000_000, Fee: 1_000_000, Label: "addpkg", Msgs: []MsgSpec{{Kind: "addpkg", Pkg: p, Body: body}}})
+			}
+		}
 		for i := 0; i < ntx; i++ {
 			if prof.FailBoost && r.IntN(100) < 45 {
 				blk = append(blk, failTx(r))
@@ -339,6 +350,38 @@ func GenP(r *rand.Rand, seed uint64, nBlocks, maxTxs int, prof Profile) *History
 			}
 			if prof.MoveBoost && r.IntN(100) < 40 {
 				blk = append(blk, TxSpec{Signer: pick(r, Users), Gas: 150_000_000, Fee: 1_000_000, Msgs: []MsgSpec{moveScript(r)}, Label: "move-script"})
+				continue
+			}
+			fanP := 7
+			if prof.FanBoost {
+				fanP = 30
+			}
+			if len(deployed) >= 2 && r.IntN(100) < fanP {
+				// fan-out: one message changes several clone realms by exactly the same number of
+				// bytes (first a message that brings them to the same shape, then equal growth)
+				n := 2 + r.IntN(3)
+				if n > len(deployed) {
+					n = len(deployed)
+				}
+				perm := r.Perm(len(deployed))[:n]
+				mk := func(call string) MsgSpec {
+					var b strings.Builder
+					b.WriteString("package main\n\nimport (\n")
+					for _, pi := range perm {
+						fmt.Fprintf(&b, "\t\"gno.land/r/verif/gen%d\"\n", deployed[pi])
+					}
+					b.WriteString(")\n\nfunc main(cur realm) {\n")
+					for _, pi := range perm {
+						fmt.Fprintf(&b, "\tprintln(gen%d.%s)\n", deployed[pi], call)
+					}
+					b.WriteString("}\n")
+					return MsgSpec{Kind: "run", Body: b.String()}
+				}
+				signer := pick(r, Users)
+				v := r.IntN(50)
+				blk = append(blk,
+					TxSpec{Signer: signer, Gas: 150_000_000, Fee: 1_000_000, Label: "fanout-clear", Msgs: []MsgSpec{mk("Clear(cross(cur))")}},
+					TxSpec{Signer: signer, Gas: 150_000_000, Fee: 1_000_000, Label: "fanout-add", Msgs: []MsgSpec{mk(fmt.Sprintf("Add(cross(cur), %d)", v))}})
 				continue
 			}
 			tx := TxSpec{Signer: pick(r, Users), Gas: 60_000_000, Fee: 1_000_000}
